@@ -1,0 +1,46 @@
+//go:build verif
+
+package network
+
+// The read-only accessors to unexported state to be used by runtime monitors. Nothing else.
+
+// VerifNodeState the snapshot of unexported node's fields
+type VerifNodeState struct {
+	Visited         bool
+	IsActive        bool
+	LastActivation  float64
+	LastActivation2 float64
+}
+
+func (n *NNode) VerifState() VerifNodeState {
+	return VerifNodeState{
+		Visited:         n.visited,
+		IsActive:        n.isActive,
+		LastActivation:  n.lastActivation,
+		LastActivation2: n.lastActivation2,
+	}
+}
+
+// VerifSolverState the snapshot of unexported state of the fast network solver
+type VerifSolverState struct {
+	NeuronSignals               []float64
+	NeuronSignalsBeingProcessed []float64
+	BiasNeuronCount             int
+	InputNeuronCount            int
+	OutputNeuronCount           int
+	TotalNeuronCount            int
+}
+
+func (s *FastModularNetworkSolver) VerifState() VerifSolverState {
+	st := VerifSolverState{
+		NeuronSignals:               make([]float64, len(s.neuronSignals)),
+		NeuronSignalsBeingProcessed: make([]float64, len(s.neuronSignalsBeingProcessed)),
+		BiasNeuronCount:             s.biasNeuronCount,
+		InputNeuronCount:            s.inputNeuronCount,
+		OutputNeuronCount:           s.outputNeuronCount,
+		TotalNeuronCount:            s.totalNeuronCount,
+	}
+	copy(st.NeuronSignals, s.neuronSignals)
+	copy(st.NeuronSignalsBeingProcessed, s.neuronSignalsBeingProcessed)
+	return st
+}
